@@ -15,6 +15,10 @@ Three checks per generated module set (base modules + deviating modules):
        claim) and delete of a leaf-list default (the library refuses with an error: accepted as "reported").
        Deleting a min-/max-elements statement that is absent (D45, repaired) must be REPORTED by reference, model
        and implementation alike: the generator keeps producing it.
+ A text-level family (gen_type_cases; no model run: the model's types are opaque names) has replacement types that are
+ whole type statements; checks (ii) and (iii) apply with the reference's parameter [resolvable] instantiated by the
+ generator's classification of each statement (OCaml `c08specr`), the target's full dumped type is compared with the
+ same statement on an ordinary leaf, and every such module set is also processed twice (check_type_repeat).
 """
 import itertools
 import json
@@ -594,6 +598,236 @@ def check_flip_cases(res, cases, seed, n_max, report=3):
     return stats, nviol
 
 
+# ------------------------------------------------------------------ replacement types that are whole type statements
+# The model (and Spec/C08.v) treat a type as an opaque name and take "does it resolve" as a parameter ([resolvable]).
+# Here the replacement type of `deviate add|replace { type ...; }` is a generated type STATEMENT -- a builtin or typedef
+# name with restrictions, a union of such (nested, 1-4 members) -- of which the generator knows by construction whether
+# it resolves (RFC 7950 9.x): every part resolves / exactly the named part does not.  The reference is evaluated with
+# [resolvable] := that classification (OCaml c08specr); for a statement that resolves, the very same statement stands on
+# an ordinary leaf of the deviating module (container pr, leaf p<label>) and the target's dumped type must equal it.
+TYPE_MOD_TT = """module tt {
+  namespace "urn:tt";
+  prefix tt;
+  typedef cnt { type uint32 { range "0..1000"; } }
+  typedef name { type string { length "1..20"; pattern "[a-z]+"; } }
+  identity tt-id;
+}
+"""
+TYPE_DEFS = """  typedef percent { type uint8 { range "0..100"; } }
+  typedef dec2 { type decimal64 { fraction-digits 2; } }
+  typedef short { type string { length "1..10"; } }
+  typedef color { type enumeration { enum red; enum green; } }
+  typedef un { type union { type percent; type string; } }
+  typedef idr { type identityref { base d-id; } }
+  identity d-id;
+"""
+INT_BOUNDS = dict(int8=(-128, 127), int16=(-32768, 32767), int32=(-2 ** 31, 2 ** 31 - 1), int64=(-2 ** 63, 2 ** 63 - 1),
+                  uint8=(0, 255), uint16=(0, 65535), uint32=(0, 2 ** 32 - 1), uint64=(0, 2 ** 64 - 1))
+
+
+def good_type_atoms(rnd):
+    """type statements every part of which resolves (in the deviating module d1: typedefs TYPE_DEFS, import tt)"""
+    it = rnd.choice(sorted(INT_BOUNDS))
+    lo, hi = INT_BOUNDS[it]
+    a, b = sorted(rnd.sample(range(1, 10), 2))
+    return ["string", "boolean", "uint8", "int64", "empty", "binary", "percent", "short", "color", "un", "idr", "dec2", "tt:cnt", "tt:name",
+            "d1:percent",
+            'percent { range "%d..%d"; }' % (rnd.choice([0, 1, 10]), rnd.choice([50, 99, 100])),
+            'percent { range "0..10 | 90..100"; }',
+            '%s { range "%d..%d"; }' % (it, lo, hi),                       # exactly the base type's bounds
+            '%s { range "min..max"; }' % it,
+            '%s { range "%d..%d"; }' % (it, lo + 1, hi - 1),
+            'tt:cnt { range "10..1000"; }',
+            'string { length "%d..%d"; }' % (a, b),
+            'string { length "0..max"; pattern "a.*"; }',
+            'short { length "%d..%d"; }' % (rnd.choice([1, 2]), rnd.choice([9, 10])),
+            'tt:name { length "1..20"; }',
+            'decimal64 { fraction-digits %d; }' % rnd.choice([1, 2, 17, 18]),
+            'dec2 { range "1.5..2.5"; }',
+            'enumeration { enum a; enum b { value 7; } enum c; }',
+            'enumeration { enum a { value -1; } enum b { value 1; } }',
+            'bits { bit x; bit y { position 4; } }',
+            'identityref { base d-id; }', 'identityref { base d1:d-id; }', 'identityref { base tt:tt-id; }',
+            'leafref { path "/b:top/b:x"; }',
+            'binary { length "4"; }']
+
+
+def bad_type_atoms(rnd):
+    """type statements with exactly one part that does not resolve; (text, the named type itself is unknown)"""
+    it = rnd.choice(sorted(INT_BOUNDS))
+    lo, hi = INT_BOUNDS[it]
+    out = [(t, True) for t in ["nope", "d1:nope", "zz:cnt", "tt:nope", "b:nope", "cnt", "tt:percent"]]
+    out += [(t, False) for t in [
+        'percent { range "50..300"; }', 'percent { range "0..101"; }', 'percent { range "min..max | 200"; }',
+        '%s { range "%d..%d"; }' % (it, lo, hi + 1),                      # one past the base type, above
+        '%s { range "%d..%d"; }' % (it, lo - 1, hi),                      # ... below
+        '%s { range "%d"; }' % (it, hi + 1),
+        'tt:cnt { range "0..1001"; }',
+        'short { length "0..10"; }', 'short { length "1..11"; }', 'short { length "5..max | 20"; }', 'tt:name { length "1..21"; }',
+        'string { fraction-digits 2; }', 'uint8 { fraction-digits 1; }', 'percent { fraction-digits 1; }',
+        'dec2 { fraction-digits 2; }', 'dec2 { fraction-digits 3; }',
+        'decimal64', 'decimal64 { fraction-digits 0; }', 'decimal64 { fraction-digits 19; }',
+        'dec2 { range "1.5..9999999999999999999"; }',
+        'enumeration { enum a { value 1; } enum b { value 1; } }', 'enumeration { enum a; enum b; enum a; }',
+        'enumeration { enum a { value 2147483647; } enum b; }',
+        'bits { bit x; bit x; }', 'bits { bit x { position 4294967296; } }',
+        'identityref', 'identityref { base nosuch; }', 'identityref { base zz:tt-id; }', 'identityref { base tt:d-id; }']]
+    return out
+
+
+def gen_union(rnd, bad_at, k, depth=0):
+    """union of k members; member number bad_at (None: none) has a part that does not resolve.  Members are atoms or,
+    one level down, unions again"""
+    ms = []
+    for i in range(k):
+        if i == bad_at:
+            if depth < 2 and rnd.random() < 0.3:
+                k2 = rnd.choice([1, 2, 3])
+                ms.append(gen_union(rnd, rnd.randrange(k2), k2, depth + 1))
+            else:
+                ms.append(rnd.choice(bad_type_atoms(rnd))[0])
+        else:
+            if depth < 2 and rnd.random() < 0.2:
+                ms.append(gen_union(rnd, None, rnd.choice([1, 2]), depth + 1))
+            else:
+                ms.append(rnd.choice(good_type_atoms(rnd)))
+    return "union { %s }" % " ".join("type %s%s" % (m, "" if m.endswith("}") else ";") for m in ms)
+
+
+def type_devmod(devs, types):
+    """the deviating module d1: imports b, a, tt; typedefs; one ordinary leaf per type statement that resolves; the
+    deviations, whose `type` values are labels standing for the statements in [types] (label -> (text, resolves))"""
+    m = mod("d1", "d1", imports=[("b", "b"), ("a", "a"), ("tt", "tt")], deviations=devs)
+    text = sg.render_module(m)
+    for lab, (ty, ok) in types.items():
+        text = text.replace("type %s; " % lab, "type %s%s " % (ty, "" if ty.endswith("}") else ";"))
+    probes = "".join("    leaf p%s { type %s%s }\n" % (lab, ty, "" if ty.endswith("}") else ";") for lab, (ty, ok) in sorted(types.items()) if ok)
+    extra = TYPE_DEFS + ("  container pr {\n%s  }\n" % probes if probes else "")
+    i = text.index("  deviation ")
+    m["text"] = text[:i] + extra + text[i:]
+    return m
+
+
+def gen_type_cases(tier, seed):
+    rnd = random.Random(seed * 6007 + 29)
+    thorough = tier != "quick"
+    out = []
+    tt = dict(mod("tt", "tt"), text=TYPE_MOD_TT)
+    nlab = [0]
+
+    def label():
+        nlab[0] += 1
+        return "TYL%d" % nlab[0]
+
+    with_tt = {}
+
+    def mk(base, devs, types, g):
+        out.append(case(with_tt.setdefault(id(base), base + [tt]), [type_devmod(devs, types)],
+                        info=dict(g=g, nomodel=True, types={k: list(v) for k, v in types.items()})))
+    bases = [base_schema(rnd, m_) for m_ in (0, 1, 2)]
+
+    def pick(kinds=("leaf", "leaflist")):
+        base, T = rnd.choice(bases)
+        return base, rnd.choice([t for t in T if t["kind"] in kinds])
+    reps = 1 if not thorough else 8
+    for _ in range(reps):
+        # every atom, under replace and add, alone and next to another property
+        for ty, ok in [(t, True) for t in good_type_atoms(rnd)] + [(t, False) for t, _ in bad_type_atoms(rnd)]:
+            for kind in ("replace", "add"):
+                base, t = pick()
+                l = label()
+                d = deviate(kind, type=l)
+                if rnd.random() < 0.3:
+                    prop = rnd.choice(["cfg", "mand", "units"])
+                    d[prop] = value_for(t, prop, "different", rnd)
+                mk(base, [(tpath(t), [d])], {l: (ty, ok)}, "type-atom")
+        # unions: 1-4 members, the member that does not resolve at every position (or nowhere)
+        for k in (1, 2, 3, 4):
+            for bad_at in [None] + list(range(k)):
+                for kind in ("replace", "add"):
+                    base, t = pick()
+                    l = label()
+                    mk(base, [(tpath(t), [deviate(kind, type=l)])], {l: (gen_union(rnd, bad_at, k), bad_at is None)}, "type-union")
+    # several deviates / deviations, each with a type statement of its own: the last one written decides the type, one
+    # that does not resolve is reported wherever it stands (also when a later one would overwrite it)
+    for i in range(60 if not thorough else 1200):
+        base, t = pick()
+        k = rnd.choice([2, 2, 3])
+        nbad = rnd.choice([0, 1, 1, 1, 2])
+        bad_ix = set(rnd.sample(range(k), min(nbad, k)))
+        types, dvs = {}, []
+        for j in range(k):
+            l = label()
+            if j in bad_ix:
+                ty = gen_union(rnd, rnd.randrange(2), 2) if rnd.random() < 0.5 else rnd.choice([x for x, unk in bad_type_atoms(rnd) if not unk])
+                types[l] = (ty, False)
+            else:
+                types[l] = (gen_union(rnd, None, rnd.choice([1, 2, 3])) if rnd.random() < 0.4 else rnd.choice(good_type_atoms(rnd)), True)
+            d = deviate(rnd.choice(["replace", "add"]), type=l)
+            if rnd.random() < 0.25:
+                d["units"] = rnd.choice(["u9", ""])
+            dvs.append(d)
+        shape = i % 3
+        if shape == 0:
+            devs = [(tpath(t), dvs)]                                   # one deviation, deviates in written order
+        elif shape == 1:
+            devs = [(tpath(t), [d]) for d in dvs]                      # one deviation statement each, same target
+        else:
+            _, T = next(bt for bt in bases if bt[0] is base)
+            others = [x for x in T if x["kind"] in ("leaf", "leaflist")]
+            devs = [(tpath(rnd.choice(others)), [d]) for d in dvs]     # different (or by chance equal) targets
+        mk(base, devs, types, "type-multi")
+    # targets that are not leaves (the reference sets the type whatever the node is; a statement that does not resolve is
+    # reported whatever the target)
+    for i in range(16 if not thorough else 200):
+        base, t = pick(("container", "list", "choice", "any", "case"))
+        l = label()
+        ok = i % 2 == 0
+        ty = rnd.choice(good_type_atoms(rnd)) if ok else rnd.choice([x for x, unk in bad_type_atoms(rnd) if not unk])
+        mk(base, [(tpath(t), [deviate("replace", type=l)])], {l: (ty, ok)}, "type-nonleaf")
+    return out
+
+
+def find_probe(dump, lab):
+    for m in dump["runs"][-1]["modules"]:
+        if m["name"] == "d1" and not m["sub"]:
+            for ch in m["tree"].get("children") or []:
+                if ch["name"] == "pr":
+                    for p_ in ch.get("children") or []:
+                        if p_["name"] == "p" + lab:
+                            return p_
+    return None
+
+
+def check_type_repeat(res, cases, report=3):
+    """the module sets of the type-statement family processed twice (one Modules value): the second Process must give
+    the verdict of the first (a type statement is resolved once and its errors are remembered)"""
+    tc = [c for c in cases if c["info"].get("types") and c.get("_st") in ("ok", "err")]
+    lines = []
+    for c in tc:
+        toks = go_case_c(c).split(" ")
+        lines.append(" ".join(["c08flip", "-,-"] + toks[3:]))
+    got = lib.run_go(lines)
+    nviol = 0
+    stats = dict(type_repeat_runs=len(tc))
+    for c, g in zip(tc, got):
+        what = None
+        if not g.startswith("{"):
+            what = "harness: " + g[:200]
+        else:
+            j = json.loads(g)
+            for k in (0, 1):
+                st, canon, _ = sg.canon_go(json.dumps(dict(loads=j["loads"], runs=[j["runs"][k]])))
+                if st != c["_st"]:
+                    what = "Process number %d on one module set: %s; a fresh set: %s" % (k + 1, st, c["_st"])
+                    break
+        if what:
+            nviol += 1
+            if nviol <= report:
+                res.violation("replacement type statements, repeated Process: " + what, dict(kind="c08", what=what, case=strip(c)))
+    return stats, nviol
+
+
 # ------------------------------------------------------------------ cases
 def case(base, devmods, opts="-", info=None):
     return dict(base=base, dev=devmods, opts=opts, info=info or {})
@@ -804,6 +1038,11 @@ def gen_cases(tier, seed):
                     dm = mod("d1", "d1", imports=[("t", "t")], deviations=[("/t:c/t:%s" % leaf, dvs)])
                     cases.append(case([tbase], [dm], info=dict(g="typedef-defaults", nomodel=True)))
                     hist["typedef_defaults"] += 1
+    # --- replacement types that are whole type statements (text level, reference with [resolvable] by construction)
+    tcs = gen_type_cases(tier, seed)
+    hist["type_statements"] = len(tcs)
+    hist["type_statements_unresolvable"] = sum(1 for c in tcs if any(not ok for _, ok in c["info"]["types"].values()))
+    cases += tcs
     # --- the text layout of every case that has two or more deviate statements in one deviation is varied
     hist["layout_varied"] = 0
     for c in cases:
@@ -1019,8 +1258,11 @@ class Oracle:
                 return None
             par = self.trees[mn].get(steps[:-1])
             removable = not (steps[-1] in ("input", "output") and par is not None and par.get("hasrpc"))
-            toks = ["c08spec", "1" if "n" in self.opts else "0", "1" if removable else "0",
-                    "1" if st["hmin"] else "0", "1" if st["hmax"] else "0"] + st["tokens"] + sg.enc_list(dvs, sg.enc_deviate)
+            types = self.c["info"].get("types")
+            head = ["c08spec"] if types is None else \
+                ["c08specr"] + sg.enc_list(sorted(l for l, (_, ok) in types.items() if ok), lambda l: [sg.hx(l)])
+            toks = head + ["1" if "n" in self.opts else "0", "1" if removable else "0",
+                           "1" if st["hmin"] else "0", "1" if st["hmax"] else "0"] + st["tokens"] + sg.enc_list(dvs, sg.enc_deviate)
             return " ".join(toks)
         return None
 
@@ -1200,9 +1442,27 @@ def check_cases(res, cases, report=3):
             if n is None:
                 viol("reference: target %s/%s is gone although no not-supported applies" % (mn, "/".join(steps)), c)
                 continue
-            if node_expect(n) != s["expect"]:
+            expect = s["expect"]
+            types = c["info"].get("types")
+            if types is not None:
+                # the reference's type is the label of a generated type statement: the ordinary leaf p<label> of the
+                # deviating module carries the same statement; the target must have that type, all of it
+                lab = json.loads(expect.split(" ")[4]) if expect.split(" ")[4] != "-" else None
+                if lab in types:
+                    stats["type_statements_compared"] = stats.get("type_statements_compared", 0) + 1
+                    pr = find_probe(c["_dump"], lab)
+                    if pr is None or not pr.get("type"):
+                        viol("reference: no ordinary leaf with the type statement %s in the deviated run" % lab, c)
+                        continue
+                    expect = expect.replace('"%s"' % lab, '"%s"' % pr["type"]["name"])
+                    if node_expect(n) == expect and n.get("type") != pr["type"]:
+                        viol("reference and implementation disagree at target %s/%s: its type after `type %s` is %s; the same statement on "
+                             "an ordinary leaf yields %s" % (mn, "/".join(steps), types[lab][0], json.dumps(n.get("type"), sort_keys=True)[:400],
+                                                             json.dumps(pr["type"], sort_keys=True)[:400]), c)
+                        continue
+            if node_expect(n) != expect:
                 viol("reference and implementation disagree at target %s/%s: reference %s implementation %s" %
-                     (mn, "/".join(steps), s["expect"], node_expect(n)), c)
+                     (mn, "/".join(steps), expect, node_expect(n)), c)
                 continue
             # everything the deviates do not name stays
             b = s["node"]
@@ -1284,6 +1544,9 @@ def frame_check(c, bdump, ddump, stats):
 def run(res, tier, seed, proof):
     cases, hist = gen_cases(tier, seed)
     stats, nviol = check_cases(res, cases)
+    tstats, tviol = check_type_repeat(res, cases)
+    stats.update(tstats)
+    nviol += tviol
     fstats, fviol = check_flip_cases(res, cases, seed, 120 if tier == "quick" else 1500)
     stats.update(fstats)
     nviol += fviol
@@ -1328,7 +1591,14 @@ def run(res, tier, seed, proof):
              "deviations in (sub)modules found only through the search path (ops D), compared with reading everything explicitly; "
              "two revisions of the deviated module with pinned and unpinned imports, each revision compared with the run that "
              "determines it by construction; deviation paths that drop a choice or case step; deviations written in an included "
-             "submodule whose imports / belongs-to prefix differ from (or clash with) those of the including module.  Each case: model-vs-implementation, frame against the run without the deviating modules, "
+             "submodule whose imports / belongs-to prefix differ from (or clash with) those of the including module; replacement "
+             "types that are whole type statements (text level, outside the model): every builtin/typedef/imported-typedef atom with "
+             "range, length, pattern, fraction-digits, enum, bit, identityref base restrictions at and one past the bounds of the base "
+             "type, unions of 1-4 members (nested to depth 2) with the member that does not resolve at every position or nowhere, "
+             "under add and replace, next to other properties, 2-3 type-carrying deviates in one deviation / in several deviation "
+             "statements / on several targets with the unresolvable one before or after a resolvable one, non-leaf targets; the "
+             "reference runs with resolvable := resolves-by-construction, the resulting type is compared in full with the same "
+             "statement on an ordinary leaf, and each such module set is processed twice.  Each case: model-vs-implementation, frame against the run without the deviating modules, "
              "extracted reference applied to the undeviated dump",
         exhaustive=False, mismatches=nviol,
         distribution=dict(hist, groups=groups, **stats),
@@ -1342,6 +1612,13 @@ def run(res, tier, seed, proof):
         "the reference needs to know whether a min-/max-elements statement is written on a target; this is read from the "
         "generated source, not from the implementation",
         "deviate statements for must/unique are not generated (outside the claim)",
+        "replacement types that are whole type statements (restrictions, unions, typedef references) lie outside the Coq model, "
+        "whose types are opaque names: whether such a statement resolves is the generator's classification by construction (every "
+        "part valid per RFC 7950 9.x / exactly one named part invalid), handed to the extracted reference as its parameter "
+        "[resolvable]; the type a resolvable statement must yield at the target is taken from the implementation itself (the same "
+        "statement on an ordinary leaf of the deviating module) -- an implementation-side oracle that trusts the library's type "
+        "resolution on ordinary leaves (the subject of C09/C10); duplicate bit positions are not generated (the library accepts "
+        "them everywhere)",
     ]
     return cov, assumptions
 
